@@ -399,8 +399,8 @@ class Gen:
         out += [nm + ';' for nm in fw]
         out += s.struct_order
         out += protos
-        if after_protos: out.append(after_protos(s) if callable(after_protos) else after_protos)
         out += gl
+        if after_protos: out.append(after_protos(s) if callable(after_protos) else after_protos)
         out.append(body)
         # cut / external functions: explicit non-deterministic stand-ins (listed in the evidence as trusted base)
         for n in sorted((s.was_cut | s.externals) - set(s.no_body)):
